@@ -1,5 +1,6 @@
 """C42 -- LFPS patterns are detected exactly within their timing windows; the generator emits the typical pattern."""
 import bisect
+import collections
 import math
 
 from ..ir import E, AnalysisError
@@ -7,7 +8,7 @@ from .. import q
 from ..values import pval
 
 TITLE = 'LFPS detector windows / two-in-a-row rule and generator timing'
-FLOOR = 100
+FLOOR = 80
 DECIDES = ('Roles are found through the public ports of LFPSTransceiver (the submodule whose port drives '
            'polling_detected / ping_detected / reset_detected, the submodule that drives send_signaling and '
            'drive_electrical_idle); each such submodule is re-extracted with exactly the constructor arguments the '
@@ -39,7 +40,6 @@ NOT_DECIDED = ('metastability / latency of the FFSynchronizer (modelled as one r
 
 TOP = 'LFPSTransceiver'
 EPS = 1e-6
-BUDGET = 60000          # executed (not skipped) cycles per envelope
 CMP = ('==', '!=', '<', '<=', '>', '>=')
 
 # USB 3.2 r1.0 Table 6-30 (LFPS transmitter timing), seconds.  Each entry: tuple of acceptable values.
@@ -92,7 +92,7 @@ def _width(e):
 
 
 class Sim:
-    """Cycle-accurate execution of one extracted ModuleIR (single clock domain)."""
+    """One-cycle evaluation of an extracted ModuleIR (single clock domain) under last-assignment-wins."""
 
     def __init__(self, ctx, ir, label):
         self.ctx, self.ir, self.label = ctx, ir, label
@@ -257,18 +257,10 @@ class Sim:
                 scan(item.rhs)
         self.thresholds = {n: sorted(t) for n, t in thr.items()}
         self.jumpable = cands - bad
-        self.breaks = {}
-        for n in self.jumpable:
-            b = set()
-            for t in thr[n]:
-                b.update((t, t + 1))
-            w = self.si[n].w
-            if w:
-                b.update(((1 << w) - 1, 1 << w))
-            self.breaks[n] = sorted(x for x in b if x >= 0)
 
     # -- one clock cycle -----------------------------------------------------------------------------------------------
-    def step(self, st, regs, inp):
+    def step(self, st, regs, inp, want_win=False):
+        """one clock cycle: (all signal values of this cycle, next FSM states, next register values[, winning assignments])"""
         env = dict(regs)
         env.update(inp)
         comb = {n: self._reset(n) for n in self.comb_names}
@@ -285,6 +277,7 @@ class Sim:
             raise AnalysisError('combinational loop in %s' % self.label)
         env.update(comb)
         nxt = dict(regs)
+        win = {}
         for a in self.sync:
             if not (self.active(a, st) and self.holds(a.guard, env)):
                 continue
@@ -293,93 +286,15 @@ class Sim:
             if isinstance(rhs, E) and rhs.op == 'call':
                 if rhs.args[0] != 'ffsync' or len(rhs.args) != 2:
                     raise AnalysisError('cannot evaluate %s in %s' % (rhs.canon(), self.label))
-                rhs = rhs.args[1]          # synchronizer: a fixed delay; one register is enough for the envelope
+                rhs = rhs.args[1]          # synchronizer: a fixed delay, modelled as one register
             nxt[n] = self._mask(n, self.ev(rhs, env))
+            win[n] = a
         st2 = dict(st)
         for f in self.fsms:
             for e in self.edges[(f.id, st[f.id])]:
                 if self.active(e, st) and self.holds(e.guard, env):
                     st2[f.id] = e.dst
-        return env, st2, nxt
-
-    def run(self, segments, watch):
-        """segments: [(inputs dict, cycles)] from reset.  Returns the run-length encoded trace [(t0, n, values)]."""
-        for w in watch:
-            self.ctx.need(w in self.comb_names or w in self.reg_names, 'output %s of %s' % (w, self.label))
-        st = {f.id: f.init for f in self.fsms}
-        regs = {n: self._reset(n) for n in self.reg_names}
-        t, steps, trace = 0, 0, []
-
-        def emit(t0, n, obs):
-            if trace and trace[-1][2] == obs:
-                trace[-1] = (trace[-1][0], trace[-1][1] + n, obs)
-            else:
-                trace.append((t0, n, obs))
-
-        for inp, dur in segments:
-            remaining = dur
-            seen = {}
-            while remaining > 0:
-                # a wrapped free-running counter with everything else unchanged: the machine is periodic while the
-                # inputs are constant -- replay whole periods instead of executing them
-                if any(regs.get(r) == 0 for r in self.jumpable):
-                    key = (tuple(sorted(st.items())), tuple(sorted(regs.items())))
-                    t_prev = seen.get(key)
-                    if t_prev is not None and t - t_prev <= remaining:
-                        period = t - t_prev
-                        k = remaining // period
-                        chunk = []
-                        for t0, n, obs in trace:
-                            a, b = max(t0, t_prev), min(t0 + n, t)
-                            if a < b:
-                                chunk.append((b - a, obs))
-                        if len({o for _, o in chunk}) == 1:
-                            emit(t, k * period, chunk[0][1])
-                        else:
-                            tt = t
-                            for _ in range(k):
-                                for n, obs in chunk:
-                                    emit(tt, n, obs)
-                                    tt += n
-                        t += k * period
-                        remaining -= k * period
-                        seen = {}
-                        if remaining == 0:
-                            break
-                    seen[key] = t
-                steps += 1
-                if steps > BUDGET:
-                    raise AnalysisError('%s: envelope needs more than %d executed cycles (a free-running counter is read '
-                                        'outside comparisons with constants, cannot skip)' % (self.label, BUDGET))
-                env, st2, regs2 = self.step(st, regs, inp)
-                obs = tuple(env[w] for w in watch)
-                n = 1
-                if st2 == st and remaining > 1:
-                    inc, quiet = [], True
-                    for r in regs:
-                        if regs2[r] == regs[r]:
-                            continue
-                        if r in self.jumpable and regs2[r] == regs[r] + 1:
-                            inc.append(r)
-                        else:
-                            quiet = False
-                            break
-                    if quiet:
-                        skip = remaining - 1
-                        for r in inc:
-                            bp = self.breaks[r]
-                            i = bisect.bisect_right(bp, regs[r])
-                            if i < len(bp):
-                                skip = min(skip, bp[i] - 1 - regs[r])
-                        if skip > 0:
-                            for r in inc:
-                                regs2[r] += skip
-                            n += skip
-                emit(t, n, obs)
-                t += n
-                remaining -= n
-                st, regs = st2, regs2
-        return trace
+        return (env, st2, nxt, win) if want_win else (env, st2, nxt)
 
 
 # ------------------------------------------------------------------------------------------------ role resolution
@@ -461,7 +376,10 @@ def check_spec(ctx, role, pattern, user, loc):
     return eff
 
 
-# ------------------------------------------------------------------------------------------------ reference model
+# ------------------------------------------------------------------------------------------------ reference classes
+GOOD, DC, BAD = 'in-window', 'edge', 'out-of-window'
+
+
 def lo_int(x):
     """smallest cycle count that is >= x"""
     return int(math.ceil(x - EPS))
@@ -477,69 +395,339 @@ def over_int(x):
     return int(math.ceil(x + 1 - EPS))
 
 
-def burst_class(L, b):
-    if b[0] - EPS <= L <= b[1] + EPS:
-        return True
-    if L < b[0] - EPS or L >= b[1] + 1 - EPS:
-        return False
-    return None
+class Window:
+    """Cycle counts lo..hi are inside the window, < lo and >= ov are outside, hi+1..ov-1 is sampling quantisation."""
+
+    def __init__(self, xmin, xmax):
+        self.x = (xmin, xmax)
+        self.lo, self.hi, self.ov = lo_int(xmin), hi_int(xmax), over_int(xmax)
+
+    def points(self):
+        return [self.lo, self.hi + 1, self.ov]
+
+    def klass(self, n):
+        if self.lo <= n <= self.hi:
+            return GOOD
+        if n < self.lo or n >= self.ov:
+            return BAD
+        return DC
+
+    def __str__(self):
+        return '%.6g..%.6g cycles' % self.x
 
 
-def envelope(bursts, lead, tail):
-    """bursts: [(L, R)] -- L cycles of signalling, next burst R cycles after this one started."""
-    segs = [(0, lead)]
-    starts = []
-    t = lead
-    for i, (L, R) in enumerate(bursts):
-        starts.append(t)
-        segs.append((1, L))
-        if i + 1 < len(bursts):
-            segs.append((0, R - L))
-            t += R
+def _worst(a, b):
+    if BAD in (a, b):
+        return BAD
+    return DC if DC in (a, b) else GOOD
+
+
+# ------------------------------------------------------------------------------------------------ region abstraction
+class Part:
+    """Partition of 0..top (top None: unbounded) into singleton regions for the given points and the maximal intervals
+    between them."""
+
+    def __init__(self, points, top=None):
+        pts = sorted({p for p in points if p >= 0 and (top is None or p <= top)} | {0} | ({top} if top is not None else set()))
+        regs = []
+        for i, p in enumerate(pts):
+            regs.append((p, p))
+            nxt = pts[i + 1] if i + 1 < len(pts) else None
+            if nxt is None:
+                if top is None:
+                    regs.append((p + 1, None))
+            elif nxt > p + 1:
+                regs.append((p + 1, nxt - 1))
+        self.regs = regs
+        self.los = [r[0] for r in regs]
+        self.top = top
+
+    def of(self, v):
+        return bisect.bisect_right(self.los, v) - 1
+
+    def exact(self, i):
+        lo, hi = self.regs[i]
+        return lo if lo == hi else None
+
+    def rep(self, i):
+        return self.regs[i][0]
+
+    def succ(self, i):
+        """regions of v+1 for v in region i (wrapping at top)"""
+        lo, hi = self.regs[i]
+        if hi is None:
+            return [i]
+        if i + 1 >= len(self.regs):
+            return [0] if lo == hi else [i, 0]
+        return [i + 1] if lo == hi else [i, i + 1]
+
+    def span(self, a, b):
+        """regions meeting a..b (b None: unbounded)"""
+        i = self.of(max(a, 0))
+        j = len(self.regs) - 1 if b is None else self.of(min(b, self.regs[-1][1] if self.regs[-1][1] is not None else b))
+        return list(range(i, j + 1))
+
+    def show(self, i):
+        lo, hi = self.regs[i]
+        return '%d' % lo if lo == hi else ('%d..%s' % (lo, hi if hi is not None else ''))
+
+
+MAX_NODES = 250000
+MIN_GAP = 4         # envelopes whose idle gap is shorter than this many cycles are not required to be reported
+SYNC_D = 2          # design counter and reference counter are related exactly while they differ by at most this
+
+
+class Product:
+    """Exhaustive exploration of (design FSM state, small design registers, design counter region) x (reference monitor,
+    monitor counter region) from reset under every input valuation.  One cycle of the extracted IR is evaluated per
+    (abstract state, input); the counters are abstracted to regions between the constants they are compared with
+    (singletons around the constants), related exactly by their difference while they run in lock-step."""
+
+    def __init__(self, ctx, sim, mon, outputs):
+        self.ctx, self.sim, self.mon, self.outputs = ctx, sim, mon, tuple(outputs)
+        ctx.need(len(sim.jumpable) == 1 and not (set(sim.thresholds) - sim.jumpable),
+                 'exactly one cycle counter, read only through comparisons with constants, in %s (found %s)' % (
+                     sim.label, sorted(sim.thresholds)))
+        self.cnt = sorted(sim.jumpable)[0]
+        w = sim.si[self.cnt].w
+        self.top = (1 << w) - 1 if w else None
+        td = set(sim.thresholds[self.cnt])
+        base = td | set(mon.points) | {0, 1} | ({self.top} if self.top is not None else set())
+        self.Pn = Part({t + j for t in base for j in range(-SYNC_D - 2, SYNC_D + 3)})
+        self.Pc = Part({t + j for t in td | {0, 1} for j in (0, 1)} | {2}, self.top)
+        self.other = sorted(n for n in sim.reg_names if n != self.cnt)
+        for n in self.other:
+            ctx.need(sim.si[n].w is not None and sim.si[n].w <= 4, 'small control register %s in %s' % (n, sim.label))
+        self.fids = [f.id for f in sim.fsms]
+        self.inputs = list(sim.inputs)
+        ctx.need(1 <= len(self.inputs) <= 2, 'one or two 1-bit inputs of %s (found %s)' % (sim.label, self.inputs))
+        self._dcache = {}
+        self.nodes = {}
+        self.info = []
+        self.edges = []          # per node: [(input tuple, label, dst)]
+        self.parent = {}
+        self._explore()
+
+    # -- design: one cycle on a representative counter value -----------------------------------------------------------
+    def dstep(self, dkey, c, inp):
+        k = (dkey, c, inp)
+        r = self._dcache.get(k)
+        if r is None:
+            st = dict(zip(self.fids, dkey[0]))
+            regs = dict(zip(self.other, dkey[1]))
+            regs[self.cnt] = c
+            env, st2, nxt, win = self.sim.step(st, regs, dict(zip(self.inputs, inp)), want_win=True)
+            wa = win.get(self.cnt)
+            if wa is None:
+                kind = 'hold'
+            elif isinstance(wa.rhs, E) and wa.rhs.canon() == '1 + ' + self.cnt:
+                kind = 'inc'
+            else:
+                kind = 'const'
+            d2 = (tuple(st2[f] for f in self.fids), tuple(nxt[n] for n in self.other))
+            r = (env, d2, kind, nxt[self.cnt])
+            self._dcache[k] = r
+        return r
+
+    def _norm(self, n2, cand):
+        """abstract counter pair from a monitor region and a design candidate ('v', value) / ('r', region)"""
+        if cand[0] == 'v':
+            cv, cr = cand[1], self.Pc.of(cand[1])
         else:
-            segs.append((0, tail))
-            t += L + tail
-    return segs, starts, t
+            cr, cv = cand[1], self.Pc.exact(cand[1])
+        nv = self.Pn.exact(n2)
+        if nv is not None and cv is not None and abs(cv - nv) <= SYNC_D:
+            return ('s', n2, cv - nv)
+        return ('f', n2, cr)
+
+    def _node(self, key, parent):
+        i = self.nodes.get(key)
+        if i is None:
+            i = len(self.info)
+            if i >= MAX_NODES:
+                raise AnalysisError('%s: more than %d abstract states' % (self.sim.label, MAX_NODES))
+            self.nodes[key] = i
+            self.info.append(key)
+            self.edges.append(None)
+            self.parent[i] = parent
+            self._work.append(i)
+        return i
+
+    def _explore(self):
+        sim, Pn, Pc = self.sim, self.Pn, self.Pc
+        st0 = tuple(f.init for f in sim.fsms)
+        d0 = (st0, tuple(sim._reset(n) for n in self.other))
+        c0 = sim._reset(self.cnt)
+        self._work = collections.deque()
+        self._node((d0, self._norm(Pn.of(0), ('v', c0)), self.mon.init), None)
+        ins = [tuple(bits) for bits in _bits(len(self.inputs))]
+        while self._work:
+            i = self._work.popleft()
+            dkey, (mode, nreg, x), mkey = self.info[i]
+            nlo, nhi = Pn.regs[nreg]
+            if mode == 's':
+                c = nlo + x
+                if c < 0 or (self.top is not None and c > self.top):
+                    raise AnalysisError('%s: inconsistent counter relation' % sim.label)
+            else:
+                c = Pc.rep(x)
+            out = []
+            for inp in ins:
+                env, d2, kind, cval = self.dstep(dkey, c, inp)
+                m2, nact, mlab = self.mon.step(mkey, env, nlo)
+                n2s = [Pn.of(1)] if nact == 'one' else (Pn.succ(nreg) if nact == 'inc' else [nreg])
+                if mode == 's' and kind == 'inc' and nact == 'inc' and cval == c + 1:
+                    pairs = [('s', n2, x) for n2 in n2s]
+                else:
+                    if kind == 'const':
+                        cands = [('v', cval)]
+                    elif mode == 's':
+                        if nlo == nhi:
+                            cands = [('v', cval)]
+                        else:       # c anywhere in nlo+x .. nhi+x, incremented or held
+                            dlt = 1 if kind == 'inc' else 0
+                            cands = [('r', r) for r in Pc.span(nlo + x + dlt, None if nhi is None else nhi + x + dlt)]
+                    else:
+                        cands = [('r', r) for r in (Pc.succ(x) if kind == 'inc' else [x])]
+                    pairs = [self._norm(n2, cd) for n2 in n2s for cd in cands]
+                lab = (tuple(1 if env[o] else 0 for o in self.outputs), mlab, nreg)
+                for pr in pairs:
+                    stutter = (pr == (mode, nreg, x) and d2 == dkey and m2 == mkey and kind == 'inc' and
+                               ((mode == 's' and nhi is not None and nlo != nhi) or
+                                (mode == 'f' and Pc.regs[x][0] != Pc.regs[x][1])))
+                    j = self._node((d2, pr, m2), (i, inp))
+                    out.append((inp, lab, j, stutter))
+            self.edges[i] = out
+
+    # -- queries ------------------------------------------------------------------------------------------------------------
+    def all_edges(self):
+        for i, es in enumerate(self.edges):
+            for e in es:
+                yield i, e
+
+    def reach(self, sources, edge_ok, parents=None):
+        """nodes reachable from sources through edges with edge_ok(src, edge)"""
+        seen = set(sources)
+        work = list(sources)
+        while work:
+            i = work.pop()
+            for e in self.edges[i]:
+                if e[2] not in seen and edge_ok(i, e):
+                    seen.add(e[2])
+                    if parents is not None:
+                        parents[e[2]] = (i, e[0])
+                    work.append(e[2])
+        return seen
+
+    def describe(self, i):
+        dkey, (mode, nreg, x), mkey = self.info[i]
+        if mode == 's':
+            lo, hi = self.Pn.regs[nreg]
+            cs = '%d' % (lo + x) if lo == hi else '%d..%s' % (lo + x, (hi + x) if hi is not None else '')
+        else:
+            cs = self.Pc.show(x)
+        regs = ','.join('%s=%d' % (q.base(n).split('.')[-1], v) for n, v in zip(self.other, dkey[1]))
+        return '%s %s=%s %s' % ('/'.join(dkey[0]), q.base(self.cnt), cs, regs)
+
+    def path_to(self, i, parents=None, stop=None):
+        parents = self.parent if parents is None else parents
+        steps = []
+        while i is not None and i != stop and parents.get(i) is not None:
+            p, inp = parents[i]
+            steps.append((p, inp))
+            i = p
+        steps.reverse()
+        return steps
+
+    def fmt_path(self, steps, last=None):
+        """compressed list of (design state, counter region, input) along a path of (node, input) steps"""
+        out = []
+        for p, inp in steps + ([last] if last else []):
+            s = '(%s | in=%s)' % (self.describe(p), ''.join(str(b) for b in inp))
+            if out and out[-1][0] == s:
+                out[-1][1] += 1
+            else:
+                out.append([s, 1])
+        txt = [s if k == 1 else s + 'x%d' % k for s, k in out]
+        if len(txt) > 14:
+            txt = txt[:5] + ['... %d more ...' % (len(txt) - 11)] + txt[-6:]
+        return ' -> '.join(txt)
 
 
-def run_envelope(sim, rx, det, bursts, tail):
-    segs, starts, end = envelope(bursts, 7, tail)
-    trace = sim.run([({rx: v}, n) for v, n in segs if n > 0], (det,))
-    hits = {}
-    for t0, n, (v,) in trace:
-        if not v:
-            continue
-        for k in range(len(starts)):
-            w0 = starts[k]
-            w1 = starts[k + 1] if k + 1 < len(starts) else end
-            if t0 < w1 and t0 + n > w0:
-                hits.setdefault(k, t0)
-        if t0 < starts[0]:
-            hits.setdefault(-1, t0)
-    return hits, starts
+def _bits(n):
+    if n == 0:
+        yield ()
+        return
+    for rest in _bits(n - 1):
+        yield rest + (0,)
+        yield rest + (1,)
 
 
-def judge(ctx, rule, key, sim, rx, det, bursts, must, tail, loc, why):
-    for L, R in bursts[:-1]:
-        ctx.need(1 <= L and L + 4 <= R, 'well-formed test envelope for %s (%s)' % (key, bursts))
-    hits, starts = run_envelope(sim, rx, det, bursts, tail)
-    wrong = []
-    for k in range(-1, len(bursts)):
-        if k in must and k not in hits:
-            wrong.append('no report after burst %d although it was required' % k)
-        if k not in must and k in hits:
-            wrong.append('reported at cycle %d (in the interval that follows the start of burst %d)' % (hits[k], k))
-    shown = bursts if len(bursts) <= 5 else bursts[:5] + ['...']
-    ctx.ob(rule, key, not wrong, loc,
-           '%s: %s.  Envelope (burst cycles, start-to-start cycles) = %s: %s' % (sim.label, why, shown, '; '.join(wrong)))
+# ------------------------------------------------------------------------------------------------ detector monitors
+class EnvelopeMonitor:
+    """Reference for a detector, built from the spec windows only.  It watches the (synchronised) envelope signal `s`,
+    counts cycles from burst start with its own counter n (n = 1 in the cycle after the rise), classifies the burst
+    length when the burst ends and -- for a periodic pattern -- the start-to-start period when the next burst begins.
+    credit: the pattern may be reported (periodic: the last two complete iterations both not out-of-window;
+    single-shot: the last burst has ended and was not out-of-window).  due: it must be (all of them in-window)."""
+
+    def __init__(self, s, burst, repeat):
+        self.s, self.b, self.r = s, burst, repeat
+        self.points = burst.points() + (repeat.points() if repeat else [])
+        self.init = (0, False, None, None, False, 0)   # previous s, burst seen, burst class, previous iteration, credit, gap
+
+    def step(self, m, env, n):
+        mp, started, bcls, prev, credit, gap = m
+        s = 1 if env[self.s] else 0
+        ev, cls, due, nv, gap_ok = None, None, False, None, True
+        nact = 'inc' if started else 'hold'
+        if s and not mp:
+            ev = 'rise'
+            gap_ok = not started or gap >= MIN_GAP
+            if self.r is None:
+                credit = False
+            elif started and bcls is not None:
+                pc = self.r.klass(n)
+                cur = _worst(bcls, pc)
+                credit = prev is not None and prev != BAD and cur != BAD
+                due = prev == GOOD and cur == GOOD and gap_ok
+                cls, nv = pc, n
+                prev = cur
+                ev = 'period'
+            started, bcls, nact, gap = True, None, 'one', 0
+        elif mp and not s and started:
+            ev = 'fall'
+            bcls = cls = self.b.klass(n)
+            nv = n
+            gap = 1
+            if self.r is None:
+                credit = bcls != BAD
+                due = bcls == GOOD
+                bcls = None
+        elif not s and started:
+            gap = min(gap + 1, MIN_GAP)
+        return (s, started, bcls, prev, credit, gap), nact, (ev, cls, credit, due, nv, gap_ok)
 
 
-# ------------------------------------------------------------------------------------------------ detectors
-def check_detector(ctx, role, f, obj, port, eff, sweep):
+def _observed(ctx, sim, rx):
+    """the signal the envelope is observed on: the input followed through synchronizer registers"""
+    s = rx
+    for _ in range(4):
+        nxt = [a.lhs.args[0].name for a in sim.sync if isinstance(a.rhs, E) and a.rhs.op == 'call' and
+               a.rhs.args[0] == 'ffsync' and isinstance(a.rhs.args[1], E) and a.rhs.args[1].canon() == s and not a.guard
+               and not sim._scopes(a)]
+        if len(nxt) != 1:
+            break
+        s = nxt[0]
+    return s
+
+
+def check_detector(ctx, role, f, obj, port, eff):
     tag = '%s@%s' % (role, _mhz(f))
     kw = _ctor_kwargs(ctx, obj)
     ir = ctx.ir(obj.clsname, **kw)
     label = '%s[%s]' % (obj.clsname, tag)
+    K = label
     sim = Sim(ctx, ir, label)
     det = 'self.' + port
     ctx.need(det in sim.comb_names or det in sim.reg_names, 'output %s of %s' % (det, obj.clsname))
@@ -548,9 +736,15 @@ def check_detector(ctx, role, f, obj, port, eff, sweep):
     raise_sites = q.raises(ir, det)
     ctx.need(raise_sites, 'a site raising %s' % det)
     loc = raise_sites[0].loc
-    K = '%s[%s]' % (obj.clsname, tag)
 
-    # (c) counters hold every constant they are compared with
+    bw = Window(f * eff['burst']['t_min'], f * eff['burst']['t_max'])
+    ctx.need(1 <= bw.lo <= bw.hi, 'clock frequency %g resolves the %s burst window' % (f, role))
+    rw = None
+    if eff['repeat'] is not None:
+        rw = Window(f * eff['repeat']['t_min'], f * eff['repeat']['t_max'])
+        ctx.need(bw.ov + 4 < rw.lo <= rw.hi, 'clock frequency %g resolves the %s repeat window' % (f, role))
+
+    # (c) counters hold every constant they are compared with; (A) the comparison network uses the window edges
     ctx.need(sim.jumpable, 'a free-running cycle counter compared with constants in %s' % obj.clsname)
     for c in sorted(sim.jumpable):
         w = sim.si[c].w
@@ -559,135 +753,128 @@ def check_detector(ctx, role, f, obj, port, eff, sweep):
         ok = w is None or all(0 <= t < (1 << w) for t in ths)
         ctx.ob('C42.counter-range', '%s.counter' % K, ok, sim.si[c].loc,
                '%s: counter %s is %s bits wide but is compared with %s' % (label, c, w, ths))
+        want = [('burst t_min', bw.x[0]), ('burst t_max', bw.x[1])]
+        if rw:
+            want += [('repeat t_min', rw.x[0]), ('repeat t_max', rw.x[1])]
+        missing = ['%s (%.6g cycles)' % (nm, x) for nm, x in want if not any(abs(t - x) <= 1 + EPS for t in ths)]
+        ctx.ob('C42.window-constants', '%s.thresholds' % K, not missing, sim.si[c].loc,
+               '%s: counter %s is compared with %s; no constant within one cycle of %s of the %s pattern' % (
+                   label, c, ths, ', '.join(missing), role))
 
-    b = (f * eff['burst']['t_min'], f * eff['burst']['t_max'])
-    b_typ = eff['burst']['t_typ']
-    lo_b, hi_b, ov_b = lo_int(b[0]), hi_int(b[1]), over_int(b[1])
-    ctx.need(1 <= lo_b <= hi_b, 'clock frequency %g resolves the %s burst window' % (f, role))
-    Lg = int(round(f * b_typ)) if b_typ else (lo_b + hi_b) // 2
-    us = lambda n: '%d cycles = %.4g us' % (n, n / f * 1e6)
-    wb = 'burst window %.4g..%.4g cycles' % b
+    s = _observed(ctx, sim, rx)
+    mon = EnvelopeMonitor(s, bw, rw)
+    P = Product(ctx, sim, mon, (det,))
+    ctx.note('%s: %d abstract product states, %d transitions' % (label, len(P.info), sum(len(e) for e in P.edges)))
+    what = ('two complete iterations in a row with burst length inside %s and burst-start to burst-start period inside %s' % (bw, rw)
+            if rw else 'a finished burst with length inside %s' % bw)
 
-    if eff['repeat'] is None:
-        gap = 50
-        one = lambda L: [(L, L + gap)]
-        J = lambda rule, k, bursts, must, why: judge(ctx, rule, '%s.%s' % (K, k), sim, rx, det, bursts, must, gap, loc, why)
-        J('C42.detect-nominal', 'nominal', [(Lg, Lg + gap), (Lg, Lg + gap)], {0, 1},
-          'each typical burst (%s) must be reported once it has ended' % us(Lg))
-        J('C42.burst-window', 'burst-min.accept', one(lo_b), {0}, 'a burst of %s is inside the %s' % (us(lo_b), wb))
-        if lo_b - 1 >= 1:
-            J('C42.burst-window', 'burst-min.reject', one(lo_b - 1), set(),
-              'a burst of %s is shorter than the %s and must never be reported' % (us(lo_b - 1), wb))
-        if lo_b // 2 >= 1 and lo_b // 2 != lo_b - 1:
-            J('C42.burst-window', 'burst-half.reject', one(lo_b // 2), set(),
-              'a burst of %s is shorter than the %s and must never be reported' % (us(lo_b // 2), wb))
-        if lo_b - 1 > 1:
-            J('C42.burst-window', 'burst-glitch.reject', one(1) + one(2), set(), 'a one or two cycle glitch is not a burst')
-        J('C42.burst-window', 'burst-max.accept', one(hi_b), {0}, 'a burst of %s is inside the %s' % (us(hi_b), wb))
-        J('C42.burst-window', 'burst-max.reject', one(ov_b), set(),
-          'a burst of %s is longer than the %s and must never be reported' % (us(ov_b), wb))
-        J('C42.burst-window', 'burst-overlong.reject', one(3 * hi_b), set(),
-          'a burst of %s is far longer than the %s and must never be reported (neither during nor after it)' % (us(3 * hi_b), wb))
-        if sweep:
-            vals = set()
-            for c in sim.jumpable:
-                for p in sim.breaks[c]:
-                    vals.update((p - 1, p, p + 1))
-            vals.update(int(hi_b * k / 8) for k in range(1, 17))
-            for L in sorted(v for v in vals if 1 <= v <= 4 * hi_b):
-                cl = burst_class(L, b)
-                if cl is None:
-                    continue
-                J('C42.burst-window', 'sweep.burst=%d' % L, one(L), {0} if cl else set(),
-                  'a burst of %s is %s the %s' % (us(L), 'inside' if cl else 'outside', wb))
-        return
+    # safety: detect only with credit
+    bad = None
+    for i, e in P.all_edges():
+        if e[1][0][0] and not e[1][1][2]:
+            if bad is None or len(P.path_to(i)) < len(P.path_to(bad[0])):
+                bad = (i, e)
+    msg = ''
+    if bad:
+        i, e = bad
+        msg = 'counterexample (design state | input per cycle): ' + P.fmt_path(P.path_to(i), (i, e[0]))
+    ctx.ob('C42.detect-safety', '%s.report-only-in-window' % K, bad is None, loc,
+           '%s: %s is raised although the received envelope did not show %s; %s' % (label, det, what, msg))
 
-    r = (f * eff['repeat']['t_min'], f * eff['repeat']['t_max'])
-    lo_r, hi_r, ov_r = lo_int(r[0]), hi_int(r[1]), over_int(r[1])
-    Rg = int(round(f * eff['repeat']['t_typ']))
-    ctx.need(3 * hi_b + 8 < lo_r <= Rg <= hi_r, 'clock frequency %g resolves the %s repeat window' % (f, role))
-    wr = 'repeat window %.6g..%.6g cycles' % r
-    G = (Lg, Rg)
-    half = max(Lg + 6, lo_r // 2)
-    T = lambda bursts: bursts[-1][0] + 12
+    # liveness on the in-window subgraph: every due report is made before the next burst starts
+    def good(i, e):
+        return (e[1][1][1] is None or e[1][1][1] == GOOD) and e[1][1][5]
 
-    def J(rule, k, bursts, must, why, tail=None):
-        judge(ctx, rule, '%s.%s' % (K, k), sim, rx, det, bursts, must, tail if tail is not None else T(bursts), loc, why)
+    gpar = {}
+    root = 0
+    G = P.reach([root], good, gpar)
+    due = [(i, e) for i in G for e in P.edges[i] if good(i, e) and e[1][1][3]]
+    ctx.need(due, 'an in-window envelope in the abstract graph of %s' % label)
+    miss = [(i, e) for i, e in due if not e[1][0][0]]
+    nxt_ev = 'rise' if rw is None else 'period'
+    late = None
+    if miss:
+        par2 = {}
+        silent = lambda i, e: good(i, e) and not e[1][0][0] and e[1][1][0] not in ('rise', 'period')
+        srcs = {e[2] for i, e in miss}
+        R2 = P.reach(srcs, silent, par2)
+        for j in R2:
+            for e2 in P.edges[j]:
+                if good(j, e2) and e2[1][1][0] in ('rise', 'period'):
+                    late = (j, e2, par2)
+                    break
+            if late:
+                break
+    msg = ''
+    if late:
+        j, e2, par2 = late
+        # first undetected due edge leading here
+        k = j
+        while par2.get(k) is not None:
+            k = par2[k][0]
+        i0, e0 = [(i, e) for i, e in miss if e[2] == k][0]
+        msg = ('in-window envelope that is never reported: ' + P.fmt_path(P.path_to(i0, gpar), (i0, e0[0])) + ' [report due here] -> ' +
+               P.fmt_path(P.path_to(j, par2), (j, e2[0])) + ' [next burst starts, still no report]')
+    ctx.ob('C42.detect-liveness', '%s.every-in-window-envelope-reported' % K, late is None, loc,
+           '%s: after %s, %s must be raised before the next burst starts; %s' % (label, what, det, msg))
 
-    def four(L, R):
-        return [(L, R)] * 4
-
-    acc = {2, 3}
-    J('C42.detect-nominal', 'nominal', four(*G), acc,
-      'typical bursts (%s every %s) must be reported from the end of the second complete iteration on, not earlier' % (us(Lg), us(Rg)))
-    # burst window
-    J('C42.burst-window', 'burst-min.accept', four(lo_b, Rg), acc, 'bursts of %s are inside the %s' % (us(lo_b), wb))
-    if lo_b - 1 >= 1:
-        J('C42.burst-window', 'burst-min.reject', four(lo_b - 1, Rg), set(),
-          'bursts of %s are shorter than the %s and must never be reported' % (us(lo_b - 1), wb))
-    if lo_b - 1 > 1:
-        J('C42.burst-window', 'burst-glitch.reject', four(1, Rg), set(), 'one-cycle glitches are not bursts')
-    J('C42.burst-window', 'burst-max.accept', four(hi_b, Rg), acc, 'bursts of %s are inside the %s' % (us(hi_b), wb))
-    J('C42.burst-window', 'burst-max.reject', four(ov_b, Rg), set(),
-      'bursts of %s are longer than the %s and must never be reported' % (us(ov_b), wb))
-    J('C42.burst-window', 'burst-overlong.reject', four(3 * hi_b, Rg), set(),
-      'bursts of %s are far longer than the %s and must never be reported' % (us(3 * hi_b), wb))
-    J('C42.burst-window', 'continuous.reject', [(3 * hi_r, 3 * hi_r + 40)] * 2, set(),
-      'continuous signalling (%s) is not a periodic pattern' % us(3 * hi_r))
-    # repeat window
-    J('C42.repeat-window', 'repeat-min.accept', four(Lg, lo_r), acc, 'a period of %s is inside the %s' % (us(lo_r), wr))
-    J('C42.repeat-window', 'repeat-min.reject', four(Lg, lo_r - 1), set(),
-      'a period of %s is shorter than the %s and must never be reported' % (us(lo_r - 1), wr))
-    J('C42.repeat-window', 'repeat-half.reject', four(Lg, half), set(),
-      'a period of %s is shorter than the %s and must never be reported' % (us(half), wr))
-    J('C42.repeat-window', 'repeat-max.accept', four(Lg, hi_r), acc, 'a period of %s is inside the %s' % (us(hi_r), wr))
-    J('C42.repeat-window', 'repeat-max.reject', four(Lg, ov_r), set(),
-      'a period of %s is longer than the %s and must never be reported' % (us(ov_r), wr))
-    J('C42.repeat-window', 'repeat-double.reject', four(Lg, 2 * hi_r), set(),
-      'a period of %s is longer than the %s and must never be reported' % (us(2 * hi_r), wr))
-    # the period runs from burst start to burst start
-    J('C42.repeat-from-burst-start', 'long-burst.min-period.accept', four(hi_b, lo_r), acc,
-      'the repeat period is measured from burst start: %s bursts every %s are inside both windows' % (us(hi_b), us(lo_r)))
-    J('C42.repeat-from-burst-start', 'long-burst.over-period.reject', four(hi_b, ov_r), set(),
-      'the repeat period is measured from burst start: %s bursts every %s exceed the %s' % (us(hi_b), us(ov_r), wr))
-    J('C42.repeat-from-burst-start', 'short-burst.max-period.accept', four(lo_b, hi_r), acc,
-      'the repeat period is measured from burst start: %s bursts every %s are inside both windows' % (us(lo_b), us(hi_r)))
-    J('C42.repeat-from-burst-start', 'short-burst.under-period.reject', four(lo_b, lo_r - 1), set(),
-      'the repeat period is measured from burst start: %s bursts every %s fall short of the %s' % (us(lo_b), us(lo_r - 1), wr))
-    # two complete in-window iterations in a row
-    J('C42.two-in-a-row', 'single-iteration', [G, G], set(),
-      'one complete iteration followed by silence must not be reported', tail=3 * hi_r)
-    bad = [('after-long-burst', (3 * hi_b, Rg), 'an over-long burst'),
-           ('after-short-period', (Lg, half), 'a too short period'),
-           ('after-long-period', (Lg, 2 * hi_r), 'a too long period')]
-    if lo_b - 1 >= 1:
-        bad.insert(0, ('after-short-burst', (lo_b - 1, Rg), 'a too short burst'))
-    for k, B, txt in bad:
-        J('C42.two-in-a-row', k, [G, B, G, G, G], {4},
-          'a good iteration, then %s, then good iterations: the iteration before the bad one must not count '
-          '(first report only after two new good iterations)' % txt)
-    if sweep:
-        vals = set()
-        for c in sim.jumpable:
-            for p in sim.breaks[c]:
-                vals.update((p - 1, p, p + 1))
-        ls = sorted(v for v in vals | {int(hi_b * k / 6) for k in range(1, 13)} if 1 <= v <= 3 * hi_b)
-        for L in ls:
-            cl = burst_class(L, b)
-            if cl is None:
-                continue
-            J('C42.burst-window', 'sweep.burst=%d' % L, four(L, Rg), acc if cl else set(),
-              'bursts of %s are %s the %s' % (us(L), 'inside' if cl else 'outside', wb))
-        rs = sorted(v for v in vals | {int(hi_r * k / 6) for k in range(1, 13)} if Lg + 6 <= v <= 3 * hi_r)
-        for R in rs:
-            cl = burst_class(R, r)
-            if cl is None:
-                continue
-            J('C42.repeat-window', 'sweep.period=%d' % R, four(Lg, R), acc if cl else set(),
-              'a period of %s is %s the %s' % (us(R), 'inside' if cl else 'outside', wr))
+    # the window edges themselves are accepted: reachability restricted to envelopes sitting on the edges
+    combos = [('min-edge', bw.lo, rw.lo if rw else None), ('max-edge', bw.hi, rw.hi if rw else None)]
+    if rw:
+        combos += [('long-burst.min-period', bw.hi, rw.lo), ('short-burst.max-period', bw.lo, rw.hi)]
+    for nm, L, R in combos:
+        def only(i, e, L=L, R=R):
+            ev, cls, _, _, nv, gap_ok = e[1][1]
+            if not gap_ok:
+                return False
+            if ev == 'fall':
+                return nv == L and P.Pn.exact(e[1][2]) == L
+            if ev == 'period':
+                return nv == R and P.Pn.exact(e[1][2]) == R
+            return True
+        par3 = {}
+        R3 = P.reach([root], only, par3)
+        hit = any(only(i, e) and e[1][0][0] for i in R3 for e in P.edges[i])
+        ctx.ob('C42.window-edges', '%s.%s.accepted' % (K, nm), hit, loc,
+               '%s: no state raising %s is reachable when every burst lasts exactly %d cycles%s -- these values are inside '
+               'the burst window %s%s (the period counts from burst start)' % (
+                   label, det, L, ' and starts exactly %d cycles after the previous one' % R if rw else '', bw,
+                   ' / repeat window %s' % rw if rw else ''))
 
 
 # ------------------------------------------------------------------------------------------------ generator
+class GeneratorMonitor:
+    """Reference for the generator: counts cycles from the start of a burst (send_signaling rising) with its own counter,
+    classifies the burst length when send_signaling falls and the start-to-start period when it rises again, and tracks
+    whether the request has been high continuously since that start."""
+
+    def __init__(self, sig, req, burst, period):
+        self.sig, self.req, self.b, self.p = sig, req, burst, period
+        self.points = [burst[0], burst[1] + 1, period[0], period[1] + 1]
+        self.init = (0, False, False, False)       # previous send, burst seen, request held since burst start, ever requested
+
+    def step(self, m, env, n):
+        ms, started, held, ever = m
+        s = 1 if env[self.sig] else 0
+        r = 1 if env[self.req] else 0
+        ev, ok = None, None
+        nact = 'inc' if started else 'hold'
+        if s and not ms:
+            ev = 'rise'
+            if started and held and r:
+                ev = 'period'
+                ok = self.p[0] <= n <= self.p[1]
+            started, nact = True, 'one'
+            held = bool(r)
+        else:
+            if ms and not s and started and held and r:
+                ev = 'fall'
+                ok = self.b[0] <= n <= self.b[1]
+            held = held and bool(r)
+        ever = ever or bool(r)
+        return (s, started, held, ever), nact, (ev, ok, started and held, ever, n)
+
+
 def check_generator(ctx, f, obj, sig_port, idle_port, eff):
     tag = '%s@%s' % (GEN_ROLE, _mhz(f))
     kw = _ctor_kwargs(ctx, obj)
@@ -696,52 +883,102 @@ def check_generator(ctx, f, obj, sig_port, idle_port, eff):
     K = label
     sim = Sim(ctx, ir, label)
     sig, idle = 'self.' + sig_port, 'self.' + idle_port
+    for o in (sig, idle):
+        ctx.need(o in sim.comb_names or o in sim.reg_names, 'output %s of %s' % (o, obj.clsname))
     ctx.need(len(sim.inputs) == 1, 'exactly one input of %s (found %s)' % (obj.clsname, sim.inputs))
     req = sim.inputs[0]
     loc = (q.raises(ir, sig) or [None])[0]
     loc = loc.loc if loc is not None else None
     ctx.need(eff['repeat'] is not None and eff['burst']['t_typ'] and eff['repeat']['t_typ'], 'typical timings of the generated pattern')
     xb, xr = f * eff['burst']['t_typ'], f * eff['repeat']['t_typ']
-    P = int(round(xr))
+    bwin = (int(math.floor(xb - 1 - EPS)) + 1, int(math.ceil(xb + 1 + EPS)) - 1)       # |L - xb| < 1
+    pwin = (int(math.ceil(xr - 2 - EPS)), int(math.floor(xr + 2 + EPS)))               # |P - xr| <= 2
+    ctx.need(sim.jumpable, 'a free-running cycle counter compared with constants in %s' % obj.clsname)
     for c in sorted(sim.jumpable):
         w = sim.si[c].w
         ths = sim.thresholds[c]
         ok = w is None or all(0 <= t < (1 << w) for t in ths)
         ctx.ob('C42.counter-range', '%s.counter' % K, ok, sim.si[c].loc,
                '%s: counter %s is %s bits wide but has to reach %s' % (label, c, w, ths))
-    lead, on, off = 5, 3 * P + P // 2, 2 * P + 20
-    trace = sim.run([({req: 0}, lead), ({req: 1}, on), ({req: 0}, off)], (sig, idle))
-    t_on, t_off = lead, lead + on
-    bursts = [(t0, n) for t0, n, (s, i) in trace if s]
-    # nothing while not enabled
-    early = [t0 for t0, n, (s, i) in trace if (s or i) and t0 < t_on]
-    ctx.ob('C42.generator-idle', '%s.quiet-before-enable' % K, not early, loc,
-           '%s: send_signaling / drive_electrical_idle asserted at cycle %s although generate was never high' % (label, early[:1]))
-    ctx.ob('C42.generator-start', '%s.starts-when-enabled' % K, bool(bursts) and t_on <= bursts[0][0] <= t_on + 4, loc,
-           '%s: the first burst must start within 4 cycles of generate going high (burst starts: %s, generate high at %d)' % (
-               label, [b_[0] for b_ in bursts[:3]], t_on))
-    full = [(t0, n) for t0, n in bursts if t0 + n < t_off]
-    ok = len(full) >= 3 and all(abs(n - xb) < 1 + EPS for t0, n in full)
-    ctx.ob('C42.generator-burst', '%s.burst-length' % K, ok, loc,
-           '%s: bursts must last the typical %.6g cycles (t_typ of the burst, rounded up by less than a cycle); measured %s '
-           'while generate was high for %d cycles' % (label, xb, [n for t0, n in full], on))
-    periods = [full[i + 1][0] - full[i][0] for i in range(len(full) - 1)]
-    ok = len(periods) >= 2 and all(abs(p - xr) <= 2 + EPS for p in periods)
-    ctx.ob('C42.generator-period', '%s.repeat-period' % K, ok, loc,
-           '%s: bursts must start every typical %.6g cycles (t_typ of the repeat, at most two cycles of rounding / turnaround); '
-           'measured start-to-start %s' % (label, xr, periods))
-    # electrical idle held for the whole cycle; signalling only together with it
-    first = bursts[0][0] if bursts else t_on
-    low = [t0 for t0, n, (s, i) in trace if not i and t0 + n > first and t0 < t_off]
-    ctx.ob('C42.generator-idle', '%s.idle-held-between-bursts' % K, bool(bursts) and not low, loc,
-           '%s: drive_electrical_idle must stay high from the first burst until generate falls; it is low at cycle %s' % (
-               label, [max(t, first) for t in low[:1]]))
-    alone = [t0 for t0, n, (s, i) in trace if s and not i]
-    ctx.ob('C42.generator-idle', '%s.signalling-implies-idle-drive' % K, not alone, loc,
-           '%s: send_signaling without drive_electrical_idle at cycle %s' % (label, alone[:1]))
-    late = [t0 + n - 1 for t0, n, (s, i) in trace if (s or i) and t0 + n - 1 > t_off + P + 4]
-    ctx.ob('C42.generator-stop', '%s.stops-after-running-cycle' % K, not late, loc,
-           '%s: still transmitting at cycle %s, more than one period after generate fell at %d' % (label, late[:1], t_off))
+        missing = ['%s (%.6g cycles)' % (nm, x) for nm, x in (('burst t_typ', xb), ('repeat t_typ', xr))
+                   if not any(abs(t + 1 - x) <= 2 + EPS for t in ths)]
+        ctx.ob('C42.window-constants', '%s.thresholds' % K, not missing, sim.si[c].loc,
+               '%s: counter %s is compared with %s; no constant within two cycles of %s' % (label, c, ths, ', '.join(missing)))
+    mon = GeneratorMonitor(sig, req, bwin, pwin)
+    P = Product(ctx, sim, mon, (sig, idle))
+    ctx.note('%s: %d abstract product states, %d transitions' % (label, len(P.info), sum(len(e) for e in P.edges)))
+    S, I = 0, 1
+
+    def first(pred):
+        best = None
+        for i, e in P.all_edges():
+            if pred(i, e):
+                n = len(P.path_to(i))
+                if best is None or n < best[0]:
+                    best = (n, i, e)
+        return best
+
+    def cex(b):
+        return '' if b is None else 'counterexample (design state | request per cycle): ' + P.fmt_path(P.path_to(b[1]), (b[1], b[2][0]))
+
+    falls = [(i, e) for i, e in P.all_edges() if e[1][1][0] == 'fall']
+    b = first(lambda i, e: e[1][1][0] == 'fall' and not e[1][1][1])
+    ctx.ob('C42.generator-burst', '%s.burst-length' % K, bool(falls) and b is None, loc,
+           '%s: with the request held, every burst must last the typical %.6g cycles (rounded by less than a cycle, i.e. %d..%d); '
+           '%s%s' % (label, xb, bwin[0], bwin[1], 'no burst ever ends; ' if not falls else
+                     ('a burst of %s cycles is possible; ' % P.Pn.show(b[2][1][2]) if b else ''), cex(b)))
+    pers = [(i, e) for i, e in P.all_edges() if e[1][1][0] == 'period']
+    b = first(lambda i, e: e[1][1][0] == 'period' and not e[1][1][1])
+    ctx.ob('C42.generator-period', '%s.repeat-period' % K, bool(pers) and b is None, loc,
+           '%s: with the request held, bursts must start every typical %.6g cycles (at most two cycles of rounding / turnaround, '
+           'i.e. %d..%d); %s%s' % (label, xr, pwin[0], pwin[1], 'no second burst ever starts; ' if not pers else
+                                   ('a period of %s cycles is possible; ' % P.Pn.show(b[2][1][2]) if b else ''), cex(b)))
+    b = first(lambda i, e: e[1][0][S] and not e[1][0][I])
+    ctx.ob('C42.generator-idle', '%s.signalling-implies-idle-drive' % K, b is None, loc,
+           '%s: send_signaling without drive_electrical_idle; %s' % (label, cex(b)))
+    b = first(lambda i, e: e[1][1][2] and e[0][0] and not e[1][0][I])
+    ctx.ob('C42.generator-idle', '%s.idle-held-between-bursts' % K, b is None, loc,
+           '%s: drive_electrical_idle must stay high from a burst on for as long as the request stays high; %s' % (label, cex(b)))
+    b = first(lambda i, e: not e[1][1][3] and (e[1][0][S] or e[1][0][I]))
+    ctx.ob('C42.generator-idle', '%s.quiet-before-enable' % K, b is None, loc,
+           '%s: send_signaling / drive_electrical_idle asserted although the request was never high; %s' % (label, cex(b)))
+    # start: from the states reachable without any request, a held request starts a burst within 4 cycles
+    quiet = P.reach([0], lambda i, e: not e[0][0])
+    frontier, slow = set(quiet), None
+    for depth in range(4):
+        nxt = set()
+        for i in frontier:
+            for e in P.edges[i]:
+                if e[0][0] and not e[1][0][S]:
+                    nxt.add(e[2])
+        frontier = nxt
+    ctx.ob('C42.generator-start', '%s.starts-when-enabled' % K, not frontier, loc,
+           '%s: the first burst must start within 4 cycles of the request going high; still silent after 4 cycles in %s' % (
+               label, [P.describe(i) for i in sorted(frontier)[:2]]))
+    # stop: with the request low every path returns to the initial FSM state and stays there, silent
+    init = tuple(fsm.init for fsm in sim.fsms)
+    is_idle = lambda i: P.info[i][0][0] == init
+    allr = range(len(P.info))
+    b = first(lambda i, e: is_idle(i) and not e[0][0] and (e[1][0][S] or e[1][0][I] or not is_idle(e[2])))
+    succs = {i: [e[2] for e in P.edges[i] if not e[0][0] and not e[3] and not is_idle(e[2])] for i in allr if not is_idle(i)}
+    indeg = {i: 0 for i in succs}
+    for i, ss in succs.items():
+        for j in ss:
+            indeg[j] += 1
+    work = [i for i, d in indeg.items() if d == 0]
+    left = len(indeg)
+    while work:
+        i = work.pop()
+        left -= 1
+        for j in succs[i]:
+            indeg[j] -= 1
+            if indeg[j] == 0:
+                work.append(j)
+    loop = [P.describe(i) for i, d in sorted(indeg.items()) if d > 0][:3]
+    ctx.ob('C42.generator-stop', '%s.stops-after-running-cycle' % K, b is None and left == 0, loc,
+           '%s: with the request low the generator must finish the running cycle, return to its initial state and stay there '
+           'silent; %s%s' % (label, ('states that can be revisited forever without passing the initial state: %s; ' % loop) if left else '',
+                             cex(b)))
 
 
 # ------------------------------------------------------------------------------------------------ entry
@@ -814,13 +1051,12 @@ def run(ctx):
                '%s(ss_clk_freq=%g) must construct its %s with that clock frequency; constructor numbers: %s' % (
                    TOP, FWD_FREQ, name, [v for v in vals if v is not None]))
     # behaviour at each frequency
-    for i, f in enumerate(freqs):
+    for f in freqs:
         tir_f, dets_f, gsig_f, gidle_f = resolve(ctx, f)
-        sweep = ctx.tier == 'thorough' and i == 0
         for role, (obj, port, a) in sorted(dets_f.items()):
             pat = _pattern_of(ctx, obj)
             eff = _effective(ctx, role, pat)
-            check_detector(ctx, role, f, obj, port, eff, sweep)
+            check_detector(ctx, role, f, obj, port, eff)
         ctx.need(gsig_f[0] is gidle_f[0], 'one generator drives send_signaling and drive_electrical_idle')
         eff = _effective(ctx, GEN_ROLE, _pattern_of(ctx, gsig_f[0]))
         check_generator(ctx, f, gsig_f[0], gsig_f[1], gidle_f[1], eff)
